@@ -611,3 +611,137 @@ E('C09', 'handler-early-style', SIM, """        except (Exception, asyncio.Cance
             else:
                 self._error = err
 """)
+
+# ----------------------------------------------------------------------------- C10
+V('C10', 'count-after-eval', SIM, """            eval_cnt += 1
+            if eval_cnt > eval_limit:
+                raise EdzedCircuitError(
+                    "Circuit instability detected (too many block evaluations)")
+            if len(eval_set) == 1:""", """            if len(eval_set) == 1:""", 'R10.1')
+V('C10', 'reset-in-drain', SIM, """            while not queue.empty():
+                sblk = queue.get_nowait()
+                eval_set |= sblk.oconnections
+""", """            while not queue.empty():
+                sblk = queue.get_nowait()
+                eval_cnt = 0
+                eval_set |= sblk.oconnections
+""", 'R10.2')
+V('C10', 'limit-infinite', SIM, "eval_limit = _MAX_EVALS_PER_BLOCK * len(self._blocks)", "eval_limit = float('inf')", 'R10.3')
+V('C10', 'yield-in-burst', SIM, """            if changed:
+                eval_set |= cblk.oconnections
+""", """            if changed:
+                eval_set |= cblk.oconnections
+                await asyncio.sleep(0)
+""", 'R10.4')
+V('C10', 'test-inverted', SIM, "            if eval_cnt > eval_limit:\n", "            if eval_cnt < 0:\n", 'R10.1')
+V('C10', 'count-only-multi', SIM, """            eval_cnt += 1
+            if eval_cnt > eval_limit:""", """            if len(eval_set) > 1:
+                eval_cnt += 1
+            if eval_cnt > eval_limit:""", 'R10.1')
+V('C10', 'error-logged', SIM, """            if eval_cnt > eval_limit:
+                raise EdzedCircuitError(
+                    "Circuit instability detected (too many block evaluations)")
+""", """            if eval_cnt > eval_limit:
+                _logger.error("Circuit instability detected (too many block evaluations)")
+                eval_cnt = 0
+""", 'R10')
+V('C10', 'wait-with-pending', SIM, "            if not eval_set and queue.empty():\n                self.log_debug(\"%d block(s) evaluated, pausing\", eval_cnt)", "            if queue.empty():\n                self.log_debug(\"%d block(s) evaluated, pausing\", eval_cnt)", 'R10.2')
+E('C10', 'inc-explicit', SIM, "            eval_cnt += 1\n", "            eval_cnt = eval_cnt + 1\n")
+E('C10', 'ge-test', SIM, "            if eval_cnt > eval_limit:\n", "            if eval_limit < eval_cnt:\n")
+
+# ----------------------------------------------------------------------------- C01
+V('C01', 'drain-drops', SIM, """            while not queue.empty():
+                sblk = queue.get_nowait()
+                eval_set |= sblk.oconnections
+            if not eval_set:""", """            while not queue.empty():
+                sblk = queue.get_nowait()
+            if not eval_set:""", 'R01.2')
+V('C01', 'changed-inverted', SIM, "            if changed:\n                eval_set |= cblk.oconnections\n", "            if not changed:\n                eval_set |= cblk.oconnections\n", 'R01.4')
+V('C01', 'union-replaced', SIM, "            if changed:\n                eval_set |= cblk.oconnections\n", "            if changed:\n                eval_set = set(cblk.oconnections)\n", 'R01.4')
+V('C01', 'continue-after-removal', SIM, """                cblk = select_blk(eval_set)
+                eval_set.discard(cblk)
+""", """                cblk = select_blk(eval_set)
+                eval_set.discard(cblk)
+                if not cblk.oconnections and not cblk._output_events:
+                    continue
+""", 'R01.3')
+V('C01', 'await-resume-drops', SIM, """                eval_cnt = 0
+                eval_set |= sblk.oconnections
+            while not queue.empty():""", """                eval_cnt = 0
+            while not queue.empty():""", 'R01.2')
+V('C01', 'enqueue-in-loop', BLK, """            self._output = value
+            self.circuit.sblock_queue.put_nowait(self)
+            for event in self._output_events:
+                event.send(self, trigger='output', previous=previous, value=value)
+""", """            self._output = value
+            for event in self._output_events:
+                self.circuit.sblock_queue.put_nowait(self)
+                event.send(self, trigger='output', previous=previous, value=value)
+""", 'R01.6')
+V('C01', 'direct-output-write', S1, "        output = value if self._mod is None else value % self._mod\n        self.set_output(output)\n", "        output = value if self._mod is None else value % self._mod\n        self._output = output\n", 'R01.6')
+V('C01', 'is-instead-of-eq', BLK, """        value = self.calc_output()
+        if value is UNDEF:
+            raise ValueError("Output value must not be <UNDEF>")
+        if previous == value:
+            return False""", """        value = self.calc_output()
+        if value is UNDEF:
+            raise ValueError("Output value must not be <UNDEF>")
+        if previous is value:
+            return False""", 'R01.7')
+V('C01', 'eval-returns-false', BLK, """            event.send(self, trigger='output', previous=previous, value=value)
+        return True
+
+    def get_conf(self) -> dict[str, Any]:
+        conf = super().get_conf()
+        conf['type'] = 'combinational'""", """            event.send(self, trigger='output', previous=previous, value=value)
+        return bool(self._output_events)
+
+    def get_conf(self) -> dict[str, Any]:
+        conf = super().get_conf()
+        conf['type'] = 'combinational'""", 'R01.7')
+V('C01', 'oconn-missing-for-groups', SIM, """                for inp in all_inputs:
+                    if not isinstance(inp, block.Const):
+                        blk.iconnections.add(inp)
+                        self._blocks[inp.name].oconnections.add(blk)
+""", """                for inp in all_inputs:
+                    if not isinstance(inp, block.Const):
+                        blk.iconnections.add(inp)
+                        if not isinstance(inp, block.CBlock):
+                            self._blocks[inp.name].oconnections.add(blk)
+""", 'R01.8')
+V('C01', 'group-not-collected', SIM, """                        newgroup = tuple(validate_output(blk, i) for i in inp)
+                        all_inputs.extend(newgroup)
+""", """                        newgroup = tuple(validate_output(blk, i) for i in inp)
+                        all_inputs.extend(newgroup[:1])
+""", 'R01.8')
+V('C01', 'initial-set-sblocks', SIM, "eval_set = set(self.getblocks(block.CBlock))", "eval_set = set()", 'R01.1')
+V('C01', 'override-name', CB, "        return self._in.input if override == self._null else override", "        return self._in.inp if override == self._null else override", 'R01.9')
+V('C01', 'not-identity', CB, "        return not self._in['_'][0]\n", "        return bool(self._in['_'][0])\n", 'R01.10')
+V('C01', 'and-is-any', CB, "super().__init__(*args, func=all, unpack=False, **kwargs)", "super().__init__(*args, func=any, unpack=False, **kwargs)", 'R01.10')
+V('C01', 'getter-first-only', BLK, "                return tuple(b.output for b in iblk)\n", "                return tuple(b.output for b in iblk[:1])\n", 'R01.9')
+V('C01', 'idle-with-pending', SIM, "            if not eval_set and queue.empty():\n                self.log_debug(\"%d block(s) evaluated, pausing\", eval_cnt)", "            if len(eval_set) <= 1 and queue.empty():\n                self.log_debug(\"%d block(s) evaluated, pausing\", eval_cnt)", 'R01.5')
+E('C01', 'update-call', SIM, "            if changed:\n                eval_set |= cblk.oconnections\n", "            if changed:\n                eval_set.update(cblk.oconnections)\n")
+E('C01', 'no-fastpath', SIM, """            if len(eval_set) == 1:
+                cblk = eval_set.pop()
+            else:
+                cblk = select_blk(eval_set)
+                eval_set.discard(cblk)
+""", """            cblk = select_blk(eval_set)
+            eval_set.remove(cblk)
+""")
+E('C01', 'not-changed-continue', SIM, "            if changed:\n                eval_set |= cblk.oconnections\n", "            if not changed:\n                continue\n            eval_set |= cblk.oconnections\n")
+E('C01', 'ne-branches', BLK, """        if previous == value:
+            return False
+        self.log_debug("output: %s -> %s", previous, value)
+        self._output = value
+        for event in self._output_events:
+            event.send(self, trigger='output', previous=previous, value=value)
+        return True
+""", """        if previous != value:
+            self.log_debug("output: %s -> %s", previous, value)
+            self._output = value
+            for event in self._output_events:
+                event.send(self, trigger='output', previous=previous, value=value)
+            return True
+        return False
+""")
